@@ -501,6 +501,21 @@ def _nested_graph_references_value(nodes: Sequence[ir.Node], value: ir.Value) ->
     return any(_node_attributes_reference(node) for node in nodes)
 
 
+def _value_is_observed(
+    graph: ir.Graph, nodes: Sequence[ir.Node], value: Optional[ir.Value]
+) -> bool:
+    """Return whether a value is visible beyond its node consumers.
+
+    Graph outputs and values captured by nested (Loop/If/Scan) bodies must keep
+    their producer and their layout, so rewrites may not fold across them.
+    """
+    if value is None:
+        return False
+    return _value_is_graph_output(graph, value) or _nested_graph_references_value(
+        nodes, value
+    )
+
+
 def _known_integer_scalar(
     nodes: Sequence[ir.Node],
     value: ir.Value,
@@ -1087,6 +1102,10 @@ def remove_redundant_transpose_reduce_ir(graph: ir.Graph) -> None:
             if reducer_consumers[0] is not node:
                 # Should be covered by consumers scan logic, but double check
                 continue
+            if _value_is_observed(graph, nodes, reducer_out_val):
+                # The reduced value is itself a graph output or captured by a
+                # nested graph; changing its layout would change that result.
+                continue
 
             # 1. Update Reducer inputs
             # Input 0 becomes T1 input 0
@@ -1247,6 +1266,12 @@ def remove_redundant_transpose_add_forests_ir(graph: ir.Graph) -> None:
             if match is None:
                 continue
             add_nodes, perm_fwd, _perm_inv, input_transposes, output_transposes = match
+            if any(
+                _value_is_observed(graph, nodes, _node_output(add_node))
+                for add_node in add_nodes
+            ):
+                # An Add result is observed in its current layout.
+                continue
 
             # Rewrite Add inputs from Transpose(perm_fwd)(x) to x.
             for add_node in add_nodes:
@@ -1284,7 +1309,7 @@ def remove_redundant_transpose_add_forests_ir(graph: ir.Graph) -> None:
                     continue
                 if _consumer_nodes(live_nodes, t_out):
                     continue
-                if t_out.is_graph_output():
+                if _value_is_observed(graph, live_nodes, t_out):
                     continue
                 removable_inputs.append(in_transpose)
             if removable_inputs:
@@ -1415,6 +1440,11 @@ def remove_redundant_transpose_pairs_ir(graph: ir.Graph) -> None:
                 or not _is_inverse_perm(perm_fwd, perm_inv)
             ):
                 continue
+            if any(
+                _value_is_observed(graph, nodes, _node_output(add_node))
+                for add_node in add_chain
+            ):
+                continue
 
             # Rewrite: move Add chain to pre-transpose layout (NCHW).
             for node in add_chain:
@@ -1512,6 +1542,11 @@ def remove_redundant_transpose_pairs_ir(graph: ir.Graph) -> None:
                 continue
             if t2_node not in output_transposes:
                 continue
+            if any(
+                _value_is_observed(graph, nodes, _node_output(node))
+                for node in elem_nodes
+            ):
+                continue
 
             # Rewrite: replace transpose outputs feeding elementwise nodes with
             # their pre-transpose sources.
@@ -1549,7 +1584,9 @@ def remove_redundant_transpose_pairs_ir(graph: ir.Graph) -> None:
                 t_out = _node_output(t_node)
                 if t_out is None:
                     continue
-                if not _consumer_nodes(live_nodes, t_out):
+                if not _consumer_nodes(live_nodes, t_out) and not _value_is_observed(
+                    graph, live_nodes, t_out
+                ):
                     graph.remove(t_node)
 
             changed = True
@@ -1600,6 +1637,11 @@ def remove_redundant_transpose_pairs_ir(graph: ir.Graph) -> None:
                 if not ok:
                     break
             if not ok:
+                continue
+            if _value_is_observed(graph, nodes, t1_out) or any(
+                _value_is_observed(graph, nodes, _node_output(node))
+                for node in elem_nodes
+            ):
                 continue
             t1_in = _first_input(T1)
             if t1_in is None:
@@ -1679,6 +1721,12 @@ def remove_redundant_transpose_pairs_ir(graph: ir.Graph) -> None:
                     )
                 t1_in = _first_input(T1)
                 if t1_in is None:
+                    i += 1
+                    continue
+                if _value_is_observed(graph, nodes, T1_out) or any(
+                    _value_is_observed(graph, nodes, _node_output(m))
+                    for m in allowed_nodes
+                ):
                     i += 1
                     continue
                 if allowed_nodes:
@@ -1819,6 +1867,15 @@ def remove_redundant_reshape_pairs_ir(graph: ir.Graph) -> None:
                         continue
                     safe_chain = False
                     break
+
+            if safe_chain and (
+                _value_is_observed(graph, nodes, t1_out)
+                or any(
+                    _value_is_observed(graph, nodes, _node_output(node))
+                    for node in allowed_fwd
+                )
+            ):
+                safe_chain = False
 
             if safe_chain:
                 for node in allowed_fwd:
